@@ -1017,8 +1017,11 @@ def ring3(run, thorough, nprog=None):
   progs = PROBES + [gen_program(rng, k) for k in range(nprog)]
   t = time.time()
   import multiprocessing as mp
+  # pytype keeps about 1 MB per distinct program alive in a process that reuses its loader (measured
+  # with the unchanged driver as well); workers are recycled so that a thorough run stays far below
+  # the memory at which the OOM killer takes a worker away (a Pool never notices that: map() hangs)
   pool = mp.get_context("spawn").Pool(procs, initializer=pyt._init_worker,  # pylint: disable=protected-access
-                                      initargs=(boot.REPO, 0))
+                                      initargs=(boot.REPO, 0), maxtasksperchild=150)
   try:
     return _ring3(run, pool, progs, nprog, t)
   finally:
